@@ -164,21 +164,27 @@ template <typename V> void family()
   { auto r = +a; CHECK_COMP("pos", r, (T)(+get(a, i)), showv(a)) }
   { auto r = min(a, b); CHECK_COMP("min", r, std::min(get(a, i), get(b, i)), ab) }
   { auto r = max(a, b); CHECK_COMP("max", r, std::max(get(a, i), get(b, i)), ab) }
-  // comparisons: also with one component made equal / all equal
-  for (int variant = 0; variant < 3; variant++) {
-    V c = b;
-    if (variant >= 1) set(c, (int)(next_u64() % N), get(a, 0)), set(c, 0, get(a, 0));
-    if (variant == 2) c = a;
-    std::string ac = showv(a) + " " + showv(c);
-    bool eq = true, lt = false;
-    for (int i = 0; i < N; i++) { eq = eq && (get(a, i) == get(c, i)); lt = lt || (get(a, i) < get(c, i)); }
-    CHECK_SCALAR("eq", (a == c), eq, ac)
-    CHECK_SCALAR("ne", (a != c), !eq, ac)
-    CHECK_SCALAR("anyLessThan", anyLessThan(a, c), lt, ac)
-    bool lex = false;
-    for (int i = N - 1; i >= 0; i--) lex = (get(a, i) < get(c, i)) || ((get(a, i) == get(c, i)) && lex);
-    CHECK_SCALAR("std_less", std::less<V>()(a, c), lex, ac)
-  }
+  // comparisons: every tie pattern — the first p components equal, the rest independently below / above
+  for (int p = 0; p <= N; p++)
+    for (int rep = 0; rep < 3; rep++) {
+      V c = a;
+      for (int i = p; i < N; i++) {
+        T d = (T)(1 + (next_u64() % 3));
+        set(c, i, (next_u64() & 1) ? (T)(get(a, i) + d) : (T)(get(a, i) - d));
+      }
+      std::string ac = showv(a) + " " + showv(c);
+      bool eq = true, lt = false;
+      for (int i = 0; i < N; i++) { eq = eq && (get(a, i) == get(c, i)); lt = lt || (get(a, i) < get(c, i)); }
+      CHECK_SCALAR("eq", (a == c), eq, ac)
+      CHECK_SCALAR("ne", (a != c), !eq, ac)
+      CHECK_SCALAR("anyLessThan", anyLessThan(a, c), lt, ac)
+      bool lex = false;
+      for (int i = N - 1; i >= 0; i--) lex = (get(a, i) < get(c, i)) || ((get(a, i) == get(c, i)) && lex);
+      CHECK_SCALAR("std_less", std::less<V>()(a, c), lex, ac)
+      bool lexr = false;
+      for (int i = N - 1; i >= 0; i--) lexr = (get(c, i) < get(a, i)) || ((get(c, i) == get(a, i)) && lexr);
+      CHECK_SCALAR("std_less_rev", std::less<V>()(c, a), lexr, ac)
+    }
   // reductions / dot / sum / product (left-to-right in T's promoted arithmetic, as the scalar expressions do)
   {
     typename promoted<T>::type d = get(a, 0) * get(b, 0), su = get(a, 0), pr = get(a, 0);
